@@ -262,7 +262,9 @@ class TypeParameter(AbstractType):
         if bound == other:
             return True
         if hasattr(bound, "get_type_variables"):
-            return other in bound.get_type_variables(None)
+            # Only the variables themselves are needed here; computing their
+            # bounds (get_type_variables) requires a builtin factory.
+            return other in _mentioned_type_variables(bound)
         return False
 
     def get_bound_rec(self, factory):
@@ -304,6 +306,22 @@ class TypeParameter(AbstractType):
             self.name,
             ' <: ' + self.bound.get_name() if self.bound is not None else ''
         )
+
+
+def _mentioned_type_variables(t: Type) -> set:
+    """The type variables that occur in the given type (at any depth)."""
+    if t is None:
+        return set()
+    if t.is_type_var():
+        return {t}
+    if t.is_wildcard():
+        return _mentioned_type_variables(t.bound)
+    if t.is_parameterized():
+        type_vars = set()
+        for t_arg in t.type_args:
+            type_vars.update(_mentioned_type_variables(t_arg))
+        return type_vars
+    return set()
 
 
 class WildCardType(Type):
